@@ -18,6 +18,7 @@ import (
 	"strconv"
 	"strings"
 	"sync"
+	"syscall"
 	"time"
 )
 
@@ -363,10 +364,15 @@ func check(verifDir, repo, id, tier, replay string) int {
 	type wres struct {
 		lines   []resultLine
 		crashed bool
+		hung    bool
 		output  string
 		cur     string
 	}
 	results := make([]wres, nworkers)
+	stall := 180 * time.Second
+	if v, err := strconv.Atoi(os.Getenv("VERIF_STALL_S")); err == nil && v > 0 {
+		stall = time.Duration(v) * time.Second
+	}
 	var wg sync.WaitGroup
 	for k := 0; k < nworkers; k++ {
 		wg.Add(1)
@@ -384,7 +390,39 @@ func check(verifDir, repo, id, tier, replay string) int {
 				"VERIF_KNOWN="+strings.Join(knownSigs, ","), "GOMAXPROCS=2", "VERIF_REPO_DIR="+repo, "VERIF_DIR="+verifDir, "VERIF_PAMSIM="+pamsimBin)
 			var ob bytes.Buffer
 			cmd.Stdout, cmd.Stderr = &ob, &ob
-			err := cmd.Run()
+			// watchdog: a worker whose current run does not change for `stall` is hung (a
+			// deadlock the simulator cannot see, e.g. a lock it does not own); it gets SIGQUIT
+			// for a goroutine dump and the check ends with exit 2 - never a VIOLATION
+			err := cmd.Start()
+			if err == nil {
+				done := make(chan error, 1)
+				go func() { done <- cmd.Wait() }()
+				tick := time.NewTicker(5 * time.Second)
+				lastCur, lastChange := "", time.Now()
+			wait:
+				for {
+					select {
+					case err = <-done:
+						break wait
+					case <-tick.C:
+						b, _ := os.ReadFile(cur)
+						if string(b) != lastCur {
+							lastCur, lastChange = string(b), time.Now()
+						} else if time.Since(lastChange) > stall {
+							results[k].hung = true
+							cmd.Process.Signal(syscall.SIGQUIT)
+							select {
+							case err = <-done:
+							case <-time.After(10 * time.Second):
+								cmd.Process.Kill()
+								err = <-done
+							}
+							break wait
+						}
+					}
+				}
+				tick.Stop()
+			}
 			results[k].lines = readLines(out)
 			results[k].output = ob.String()
 			hasStats := false
@@ -437,6 +475,17 @@ func check(verifDir, repo, id, tier, replay string) int {
 			case "error":
 				cannot = append(cannot, l.Msg)
 			}
+		}
+		if wr.hung {
+			tail := wr.output
+			if i := strings.Index(tail, "SIGQUIT"); i >= 0 {
+				tail = tail[i:]
+			}
+			if len(tail) > 5000 {
+				tail = tail[:5000] + "\n..."
+			}
+			cannot = append(cannot, fmt.Sprintf("worker %d made no progress for %v in run (idx seed) = %s and was stopped: the simulation hung, which the simulator cannot judge\n%s", k, stall, wr.cur, tail))
+			continue
 		}
 		if wr.crashed {
 			// a worker died: a panic in a goroutine of the code under test kills the process
